@@ -31,6 +31,18 @@ MUTANTS = [
     dict(id="c05-tips-read-after-zero", prop="C05", file=S,
          find="        let tips = self.tips;\n        self.tips = 0.into();\n", repl="        self.tips = 0.into();\n        let tips = self.tips;\n", expect="R3/coin/value"),
     dict(id="c05-weigher-unwrap-or-1", prop="C05", file=LV, find="Covenant::from_bytes(b).map(|b| b.weight()).unwrap_or(0)", repl="Covenant::from_bytes(b).map(|_b| 0).unwrap_or(0)", expect="R1/weigher/def"),
+    # ---------------------------------------------------------------- C17 (against the repaired tree)
+    dict(id="c17-writer-elsewhere", prop="C17", file=S, find="        self.fee_pool += CoinValue(mel);\n", repl="        self.fee_pool += CoinValue(mel);\n        self.fee_multiplier += 1;\n", expect="R1/writer/"),
+    dict(id="c17-shift-6", prop="C17", file=S, find="(self.fee_multiplier >> 7).max(2)", repl="(self.fee_multiplier >> 6).max(2)", expect="R2/formula/flag=1"),
+    dict(id="c17-div-64", prop="C17", file=S, find="delta.unsigned_abs() as u128) / 128;", repl="delta.unsigned_abs() as u128) / 64;", expect="R2/formula/"),
+    dict(id="c17-floor-before-901", prop="C17", file=S, find="        } else {\n            self.fee_multiplier >> 7\n        };", repl="        } else {\n            (self.fee_multiplier >> 7).max(2)\n        };", expect="R2/formula/flag=0"),
+    dict(id="c17-plain-minus", prop="C17", file=S, find="self.fee_multiplier.saturating_sub(scaled_movement);", repl="self.fee_multiplier - scaled_movement;", expect="R3/overflow:Sub"),
+    dict(id="c17-plain-mul", prop="C17", file=S, find="max_movement.saturating_mul(delta.unsigned_abs() as u128) / 128", repl="max_movement * (delta.unsigned_abs() as u128) / 128", expect="R3/overflow:Mul"),
+    dict(id="c17-flag-const", prop="C17", file=S, find="self.apply_proposer_action(action, self.tip_901());", repl="self.apply_proposer_action(action, true);", expect="R2/flag/seal"),
+    dict(id="c17-sign-swapped", prop="C17", file=S, find="        if delta >= 0 {\n            self.fee_multiplier = self.fee_multiplier.saturating_add", repl="        if delta <= 0 {\n            self.fee_multiplier = self.fee_multiplier.saturating_add", expect="R2/sign-guard"),
+    dict(id="c17-move-without-action", prop="C17", file=S, find="            self.apply_proposer_action(action, self.tip_901());\n        }", repl="            self.apply_proposer_action(action, self.tip_901());\n        } else {\n            self.move_action_fee_multiplier(false, ProposerAction { fee_multiplier_delta: 1, reward_dest: Address::coin_destroy() });\n        }", expect="R1/"),
+    dict(id="c17-q-lt-else", prop="C17", file=S, find="        if delta >= 0 {\n            self.fee_multiplier = self.fee_multiplier.saturating_add(scaled_movement);\n        } else {\n            self.fee_multiplier = self.fee_multiplier.saturating_sub(scaled_movement);\n        }",
+         repl="        if delta < 0 {\n            self.fee_multiplier = self.fee_multiplier.saturating_sub(scaled_movement);\n        } else {\n            self.fee_multiplier = self.fee_multiplier.saturating_add(scaled_movement);\n        }", expect=None),
     # quiet ones
     dict(id="c05-q-le", prop="C05", file=A, find="if tx.fee < min_fee {", repl="if !(tx.fee >= min_fee) {", expect=None),
     dict(id="c05-q-div65536", prop="C05", file=S, find="CoinValue(self.fee_pool.0 >> 16)", repl="CoinValue(self.fee_pool.0 / 65536)", expect=None),
